@@ -416,6 +416,8 @@ def run(ctx):
     ctx.run_rule('C07.3c', 'T2', 'a generator that exits non-zero, is killed or writes to stderr is a failure whatever it printed (it becomes an error diagnostic, hence a non-zero exit status)', _c18.r_only_decoded_reply_trusted, prog)
     ctx.run_rule('C07.4f', 'T2', 'every reported diagnostic is recorded (no cap, no filter in push_into / extend)', decisions.r_container_records_everything, prog)
     ctx.run_rule('C07.4e', 'T2', 'the entry points compile every input unless reading the inputs recorded an error', r_every_input_compiled, prog)
+    from props import c18 as _c18
+    ctx.run_rule('C07.4g', 'T3', 'a generator that cannot be started, fails or replies badly becomes an error diagnostic (and so a failing exit status), never just a printed line', _c18.r_converter_names_generator, prog)
     ctx.run_rule('C07.4b', 'T1', 'has_errors() inspects kind, not level', r_has_errors_reads_kind, prog)
     ctx.run_rule('C07.4c', 'T1', 'level Error is carried exactly by Error kinds (exit status and gating agree)', levels.r_level_error_only_for_error_kind, prog)
     ctx.run_rule('C07.4d', 'T1', 'the level of an error cannot be lowered: level is rewritten only inside the Lint arm of into_updated (an allowed error would exit 0)', levels.r_level_writers, prog)
